@@ -688,7 +688,23 @@ func allocOrigin(v ssa.Value) ssa.Value {
 // heldMutexes: mutexes locked on every path to instr in fn (dominating Lock without a dominating Unlock after it).
 // lockKey names a mutex: relative to the shared variable when it is a field of it ("self.<path>"), so that the
 // same mutex is recognised from the parent, from a closure and from a method of the variable's type.
+// lockAlias: while one go statement is examined, the values that denote the same variable on both sides of it
+// (a captured variable and its free variable; an argument &x and the pointer parameter it is bound to).
+var lockAlias map[ssa.Value]string
+
 func lockKey(v ssa.Value, target ssa.Value) string {
+	if a, ok := lockAlias[allocOrigin(v)]; ok && allocOrigin(v) != target {
+		path := ""
+		for x := v; ; {
+			if fa, ok := x.(*ssa.FieldAddr); ok {
+				path = fmt.Sprintf(".%d", fa.Field) + path
+				x = fa.X
+				continue
+			}
+			break
+		}
+		return a + path
+	}
 	if target != nil && allocOrigin(v) == target {
 		path := ""
 		for {
@@ -969,6 +985,12 @@ func RuleShareIn(r *Report, p *Program, rules aspectSet, keep func(parent string
 				_ = mc
 				_ = isClosure
 				if rules["T8"] {
+					lockAlias = map[ssa.Value]string{}
+					for bi, bv := range gt.Outer {
+						k := fmt.Sprintf("shared#%d", bi)
+						lockAlias[allocOrigin(bv)] = k
+						lockAlias[gt.Inner[bi]] = k
+					}
 					for bi, bv := range gt.Outer {
 						inner := gt.Inner[bi]
 						al, ok := bv.(*ssa.Alloc)
